@@ -98,6 +98,26 @@ Theorem C14_bracket_contributes :
 Proof. exact bracket_contributes. Qed.
 Print Assumptions C14_bracket_contributes.
 
+(* The reply kind is irrelevant: two behaviour functions that agree on what is called, on the 'ignored' tag and on the
+   replied value -- and differ only in the keyword arguments of irc.reply (action, noLengthCheck, notice, private, to) --
+   give the same specification result and, on the domain, the same machine outcome and the same calls with the same
+   arguments: a sub-command's value reaches its parent whatever reply kind it used (a proxy with a parent always
+   hands the text to the parent; the noLengthCheck test comes second and only concerns the root). *)
+Theorem C14_reply_kind_irrelevant :
+  forall f1 f2 K tokens,
+  (forall strs, fr_call (f1 strs) = fr_call (f2 strs) /\ fr_tag (f1 strs) = fr_tag (f2 strs) /\ fr_res (f1 strs) = fr_res (f2 strs)) ->
+  stack_holds_domain K -> in_domain tokens = true ->
+  eval_spec f1 K tokens = eval_spec f2 K tokens /\
+  exists log1 log2 o, machine f1 K tokens = Done log1 o /\ machine f2 K tokens = Done log2 o /\ erase log1 = erase log2.
+Proof.
+  intros f1 f2 K tokens Hs HK Hd. pose proof (eval_spec_ext f1 f2 K Hs tokens) as He. split; [exact He|].
+  destruct (C14_eval_refines_on_domain f1 K tokens HK Hd) as (l1 & H1 & H2).
+  destruct (C14_eval_refines_on_domain f2 K tokens HK Hd) as (l2 & H3 & H4).
+  exists l1, l2, (snd (eval_spec f1 K tokens)). split; [exact H1|]. split; [rewrite He; exact H3|].
+  rewrite H2, H4, He. reflexivity.
+Qed.
+Print Assumptions C14_reply_kind_irrelevant.
+
 (* the post-order enumeration itself: sorted for [before] (so duplicate-free) and of length subs + 1 *)
 Theorem C14_postorder :
   forall tokens, StronglySorted before (postorder tokens) /\ length (postorder tokens) = S (subs tokens) /\
